@@ -376,7 +376,8 @@ impl Scenario for C07 {
             Some(Ok(())) => "Ok".to_string(),
             Some(Err(e)) => e,
             None => {
-                rep.inconclusive = Some("open failed".into());
+                let e = res.hist.conn.iter().find_map(|c| if let ConnRec::Open { result: Err(e), .. } = c { Some(e.clone()) } else { None });
+                rep.violate("setup", "open-failed", format!("cooperative handshake failed before any violating frame was sent: {:?}", e));
                 return rep;
             }
         };
